@@ -38,6 +38,8 @@ struct Sent {
 }
 
 struct Case {
+  /// modulator authentication: a user may hold several connections (AUTH instead of IDENTIFY)
+  auth: bool,
   srv: Srv,
   rng: Rng,
   /// connection -> authenticated username (as acknowledged)
@@ -72,6 +74,12 @@ impl Case {
         if let Message::IdentifyAck(p) = &f.msg {
           let u = p.nid.to_string().split('@').next().unwrap_or("").to_string();
           self.user.insert(k, u);
+        }
+        if let Message::AuthAck(p) = &f.msg {
+          if let (Some(true), Some(n)) = (p.succeeded, &p.nid) {
+            let u = n.to_string().split('@').next().unwrap_or("").to_string();
+            self.user.insert(k, u);
+          }
         }
       }
       if !frames.is_empty() {
@@ -128,7 +136,14 @@ impl Case {
     let _ = writeln!(self.log, "op open {k} as {name}");
     self.pump(1).await;
     self.request(k, Req::Connect { version: 1, hb: 0 }).await;
-    self.request(k, Req::Identify { username: name.to_string() }).await;
+    if self.auth {
+      if let Some(m) = &self.srv.modulator {
+        m.script.lock().unwrap().auth = AuthS::Success(name.to_string());
+      }
+      self.request(k, Req::Auth { token: format!("tok-{name}") }).await;
+    } else {
+      self.request(k, Req::Identify { username: name.to_string() }).await;
+    }
     k
   }
 
@@ -188,10 +203,16 @@ async fn run_case(case: usize, mut rng: Rng, progress: Arc<AtomicU64>) -> (Strin
   } else {
     vec![Operation::ForwardEvent]
   });
+  // a third of the cases: the modulator authenticates, and users hold two connections
+  let auth = rng.chance(1, 3);
+  if auth {
+    cfg.modulator.as_mut().unwrap().push(Operation::Auth);
+  }
   let timeout_ms = cfg.request_timeout_ms;
   let srv = Srv::new(cfg.clone()).await;
   let modu = srv.modulator.clone().unwrap();
   let mut c = Case {
+    auth,
     srv,
     rng,
     user: BTreeMap::new(),
@@ -209,6 +230,14 @@ async fn run_case(case: usize, mut rng: Rng, progress: Arc<AtomicU64>) -> (Strin
   // ---- phase 1: a populated server, no latency
   for u in USERS {
     c.open_identify(u).await;
+  }
+  if auth {
+    // second connections (4, 5, 6) of the same users
+    for u in USERS {
+      if c.rng.chance(2, 3) {
+        c.open_identify(u).await;
+      }
+    }
   }
   for k in 1..=3usize {
     for h in CHANS {
@@ -420,6 +449,17 @@ async fn run_case(case: usize, mut rng: Rng, progress: Arc<AtomicU64>) -> (Strin
       }
     }
   }
+  // every live session still holds its name: a second IDENTIFY under it must be refused
+  for (k, u) in live.iter().filter(|_| !auth) {
+    let k2 = c.open_identify(u).await;
+    if c.user.contains_key(&k2) {
+      c.fails.push(format!(
+        "C07: [name-not-exclusive] connection {k} holds the username {u} and is still open, yet connection {k2} was acknowledged the same identity"
+      ));
+      c.close(k2);
+      c.pump(2).await;
+    }
+  }
   // existence probe + canary by a fresh user
   let z = c.open_identify("zed").await;
   if !c.user.contains_key(&z) {
@@ -572,6 +612,127 @@ pub async fn run_suite(seed: u64, cases: usize, only: Option<usize>, out_path: S
       *stats.entry(k).or_insert(0) += v;
     }
   }
+  // directed regressions (kept corpus): histories that once failed run on every invocation, after the random cases
+  if only.is_none() {
+    for (i, variant) in ["join", "leave"].iter().enumerate() {
+      let case = 1_000_000 + i;
+      progress.store((case as u64) << 32, Ordering::Relaxed);
+      let (log, fails) = probe_stale_channel(variant).await;
+      if !fails.is_empty() {
+        transcript.push_str(&log);
+      }
+      for f in fails {
+        failures.push((case, format!("{f} (directed history `stale-channel-{variant}`: `nvh probe_stale --variant {variant}`)")));
+      }
+      *stats.entry("directed".into()).or_insert(0) += 1;
+    }
+  }
   progress.store(u64::MAX, Ordering::Relaxed);
   LatOut { transcript, failures, stats }
+}
+
+/// Directed probe (DESIGN D31): a JOIN that waited for the lock of a channel object which was meanwhile removed from the map,
+/// while a third JOIN has created a *new* channel under the same name.  Returns the log and the failures found.
+pub async fn probe_stale_channel(variant: &str) -> (String, Vec<String>) {
+  let mut cfg = SrvCfg::default();
+  cfg.modulator = Some(vec![Operation::ForwardEvent]);
+  cfg.request_timeout_ms = 60_000;
+  let srv = Srv::new(cfg.clone()).await;
+  let modu = srv.modulator.clone().unwrap();
+  let mut c = Case {
+    auth: false,
+    srv,
+    rng: Rng::new(1),
+    user: BTreeMap::new(),
+    dead: BTreeSet::new(),
+    closing: BTreeSet::new(),
+    inbox: BTreeMap::new(),
+    sent: Vec::new(),
+    next_id: 10,
+    log: String::new(),
+    fails: Vec::new(),
+  };
+  let b = c.open_identify("bob").await;
+  let cc = c.open_identify("carol").await;
+  let d = c.open_identify("dave").await;
+  let chan = full("c1");
+  if variant == "leave" {
+    // bob is the only member and leaves; the LEAVE is suspended in the modulator
+    let id = c.id();
+    c.request(b, Req::Join { id, chan: chan.clone(), ob: None }).await;
+  }
+  modu.set_hold(true);
+  let id_b = c.id();
+  if variant == "leave" {
+    c.request(b, Req::Leave { id: id_b, chan: chan.clone(), ob: None }).await;
+  } else {
+    // bob's creating JOIN is suspended in the modulator (member inserted, lock held)
+    c.request(b, Req::Join { id: id_b, chan: chan.clone(), ob: None }).await;
+  }
+  let _ = writeln!(c.log, "parked: {:?}", modu.parked());
+  // carol's JOIN finds the channel and waits for its lock
+  let id_c = c.id();
+  c.request(cc, Req::Join { id: id_c, chan: chan.clone(), ob: None }).await;
+  // dave's JOIN is written but not yet run; then bob's call returns (failure for the join variant = roll-back, success for the
+  // leave variant = the last member leaves): either way the channel object is removed from the map
+  let id_d = c.id();
+  let w = Req::Join { id: id_d, chan: chan.clone(), ob: None }.wire().unwrap();
+  modu.set_hold(false);
+  c.srv.send(d, &w).await;
+  let _ = writeln!(c.log, "op {d} join {id_d} (written, not yet run)");
+  modu.release(0, variant == "leave");
+  c.pump(5).await;
+  // release anything still parked
+  for _ in 0..10 {
+    if modu.parked().is_empty() {
+      break;
+    }
+    modu.release(0, true);
+    c.pump(2).await;
+  }
+  c.pump(20).await;
+  // audit: CHANNELS vs MEMBERS for carol and dave
+  let mut views: BTreeMap<String, (bool, Option<BTreeSet<String>>)> = BTreeMap::new();
+  for (k, u) in [(cc, "carol"), (d, "dave")] {
+    if c.dead.contains(&k) {
+      continue;
+    }
+    let id = c.id();
+    c.request(k, Req::Channels { id, page: None, size: None, owner: false }).await;
+    let listed = match c.replies(k, id).first().map(|f| &f.msg) {
+      Some(Message::ListChannelsAck(p)) => p.channels.iter().any(|x| x.to_string() == chan),
+      _ => false,
+    };
+    let id = c.id();
+    c.request(k, Req::Members { id, chan: chan.clone(), page: None, size: None }).await;
+    let members = match c.replies(k, id).first().map(|f| &f.msg) {
+      Some(Message::ListMembersAck(p)) => Some(p.members.iter().map(|x| x.to_string()).collect::<BTreeSet<String>>()),
+      _ => None,
+    };
+    views.insert(u.to_string(), (listed, members));
+  }
+  let _ = writeln!(c.log, "views: {views:?}");
+  let joined = |k: usize, id: u32| c.replies(k, id).iter().any(|f| matches!(f.msg, Message::JoinChannelAck(_)));
+  let (jc, jd) = (joined(cc, id_c), joined(d, id_d));
+  let _ = writeln!(c.log, "carol JOIN_ACK={jc} dave JOIN_ACK={jd}");
+  let mut fails = Vec::new();
+  for (u, (listed, members)) in &views {
+    let me = format!("{u}@localhost");
+    let is_member = members.as_ref().is_some_and(|m| m.contains(&me));
+    if *listed && !is_member {
+      fails.push(format!("C05: [views] CHANNELS of {u} lists c1 but MEMBERS of c1 ({members:?}) does not list {u}"));
+    }
+    if !*listed && is_member {
+      fails.push(format!("C05: [views] MEMBERS of c1 lists {u} but CHANNELS of {u} does not list c1"));
+    }
+  }
+  if jc && jd {
+    // both joins were acknowledged: they must see each other
+    let mc = views.get("carol").and_then(|v| v.1.clone());
+    let md = views.get("dave").and_then(|v| v.1.clone());
+    if mc != md {
+      fails.push(format!("C05: [views] carol and dave both joined c1 but are shown different member lists: {mc:?} vs {md:?}"));
+    }
+  }
+  (c.log, fails)
 }
